@@ -44,10 +44,18 @@ def run_model(prop, cases):
 
 
 def load_known(pid):
+    """entries of the committed known-findings file (and of per-property fragments under
+    known_findings.d/ while a property is being built); never written at run time"""
+    out = []
     p = os.path.join(VERIF, "known_findings.json")
-    if not os.path.exists(p):
-        return []
-    return [f for f in json.load(open(p))["findings"] if f["property"] == pid]
+    if os.path.exists(p):
+        out += [f for f in json.load(open(p))["findings"] if f["property"] == pid]
+    d = os.path.join(VERIF, "known_findings.d")
+    if os.path.isdir(d):
+        for fn in sorted(os.listdir(d)):
+            if fn.endswith(".json"):
+                out += [f for f in json.load(open(os.path.join(d, fn)))["findings"] if f["property"] == pid]
+    return out
 
 
 def load_corpus(pid):
